@@ -198,12 +198,16 @@ Section UMNFacts.
       + destruct n as [|c n']; [discriminate|].
         destruct (is_dot (c :: n')) eqn:Dt; simpl.
         * destruct (fx_dot_safe fx).
-          -- destruct (w_stat w (c :: n')) as [[| |]|]; try (now apply IH in H).
+          -- destruct (w_stat w (c :: n')) as [[| | |]|]; try (now apply IH in H).
              destruct (w_text w (c :: n')) as [t|]; [|now apply IH in H].
              destruct (plf None t) as [l1|]; simpl in H; [|discriminate]. now apply IH in H.
           -- destruct (w_isdir w (c :: n')); [now apply IH in H|].
-             destruct (w_text w (c :: n')) as [t|]; [|discriminate].
-             destruct (plf None t) as [l1|]; simpl in H; [|discriminate]. now apply IH in H.
+             assert (T : match w_text w (c :: n') with
+                         | Some text => bind (plf None text) (fun ls => umn_scan plf fx alts w r files (links ++ ls))
+                         | None => Raise IOErr end = Ok (f, ls) -> f = files ++ filter (visible_umn alts w) r).
+             { destruct (w_text w (c :: n')) as [t|]; [|discriminate].
+               destruct (plf None t) as [l1|]; simpl; [|discriminate]. intros H'. now apply IH in H'. }
+             destruct (w_stat w (c :: n')) as [[| | |]|]; try discriminate; now apply T.
         * apply IH in H. rewrite H, <- app_assoc. reflexivity.
   Qed.
 
